@@ -381,6 +381,21 @@ impl Gen {
 
     fn call_args(&mut self, f: &FnSig, depth: usize) -> Option<Vec<Ex>> {
         let mut args = vec![];
+        // too many arguments *and* a wrong type in a declared position (the arity check must not
+        // depend on how many arguments were accepted so far)
+        if !f.params.is_empty() && self.fault("B5-arg-more-and-type") {
+            let k = self.frng.below(f.params.len());
+            for (i, p) in f.params.iter().enumerate() {
+                if i == k {
+                    let q = self.other_prim(p);
+                    args.push(Ex::single(EV::Lit(prim_lit(&mut self.frng, q))));
+                } else {
+                    args.push(self.expr(p, depth)?);
+                }
+            }
+            args.push(Ex::single(EV::Lit(PV::Bool(true))));
+            return Some(args);
+        }
         for p in &f.params {
             if self.fault("B5-arg-type") {
                 let q = self.other_prim(p);
@@ -606,6 +621,33 @@ impl Gen {
                     name: name.clone(),
                     mutable: false,
                     ty: Some(Ty::Prim(u)),
+                    value: Ex::single(EV::Lit(prim_lit(&mut self.frng, u))),
+                }));
+                self.declare(&name, Ty::Prim(u), false);
+                out.push(St::Let(LetS {
+                    name: "w".to_string(),
+                    mutable: false,
+                    ty: Some(Ty::Prim(t)),
+                    value: Ex::single(EV::Var(name)),
+                }));
+            }
+        }
+        // a local that hides a constant of another type, used where only the constant's type fits
+        if self.fault("B7-shadow-const-then-const-type") {
+            let cs: Vec<(String, PT)> = self
+                .consts
+                .iter()
+                .filter_map(|(n, t)| match t {
+                    Ty::Prim(p) if self.lookup(n).is_none() => Some((n.clone(), *p)),
+                    _ => None,
+                })
+                .collect();
+            if let Some((name, t)) = cs.first().cloned() {
+                let u = self.other_prim(&Ty::Prim(t));
+                out.push(St::Let(LetS {
+                    name: name.clone(),
+                    mutable: false,
+                    ty: None,
                     value: Ex::single(EV::Lit(prim_lit(&mut self.frng, u))),
                 }));
                 self.declare(&name, Ty::Prim(u), false);
@@ -1147,6 +1189,23 @@ pub fn gen_perm(seed: u64, max_variants: usize) -> Vec<Prog> {
             .find(|(class, _)| !class.starts_with("D1") && !class.starts_with("D3") && !class.starts_with("D6"))
             .map_or(b, |x| x.1)
     };
+    let mut base = base;
+    if rng.chance(1, 4) {
+        // two declarations that fail with the same error (same kind, same identifier) and a third
+        // that fails differently: the error multiset must not depend on what stands between them
+        let zz = |k: u8| CE {
+            v: CV::Val(PV::U8(k)),
+            rest: Some((Op::Plus, Box::new(CE { v: CV::Const("ZZ.undeclared".to_string()), rest: None }))),
+        };
+        base.push(Top::Const("A.e".to_string(), Ty::Prim(PT::U8), zz(1)));
+        base.push(Top::Const("B.e".to_string(), Ty::Prim(PT::U8), zz(2)));
+        base.push(Top::Fn(Fn {
+            name: "f.e".to_string(),
+            params: vec![("p".to_string(), Ty::Struct("Undeclared.S".to_string(), vec![]))],
+            result: Ty::Prim(PT::None),
+            body: vec![],
+        }));
+    }
     let mut out = vec![base.clone()];
     for _ in 0..max_variants {
         let mut idx: Vec<usize> = (0..base.len()).collect();
